@@ -489,21 +489,46 @@ func (e *Exec) tryIfConvert(st *State, f *Frame, x *ssa.If, cond *Term) bool {
 		}
 		newVals[ph] = acc
 	}
-	// values defined on every path identically (blocks that dominate J)
+	// every other value: identical on all paths -> keep; different (a block on all
+	// paths computed it from path-dependent inputs, or a loop inside the region
+	// re-defined it) -> ite over the paths; unmergeable -> no conversion.
 	for k, v := range ends[0].env {
-		if _, had := f.env[k]; had {
+		if _, isPhi := newVals[k]; isPhi {
 			continue
 		}
 		same := true
+		inAll := true
 		for _, pe := range ends[1:] {
-			if ov, ok := pe.env[k]; !ok || !sameValue(ov, v) {
-				same = false
+			ov, ok := pe.env[k]
+			if !ok {
+				inAll = false
 				break
 			}
+			if !sameValue(ov, v) {
+				same = false
+			}
+		}
+		if !inAll {
+			if _, had := f.env[k]; had {
+				return false
+			}
+			continue // defined on some paths only: cannot be live after the join
 		}
 		if same {
-			newVals[k] = v
+			if old, had := f.env[k]; !had || !sameValue(old, v) {
+				newVals[k] = v
+			}
+			continue
 		}
+		acc := ends[len(ends)-1].env[k]
+		for i := len(ends) - 2; i >= 0; i-- {
+			m, ok := e.mergeV(ends[i].cond, ends[i].env[k], acc)
+			if !ok {
+				return false
+			}
+			acc = m
+		}
+		newVals[k] = acc
 	}
 	for k, v := range newVals {
 		f.env[k] = v
